@@ -858,6 +858,8 @@ class Algebra:
 
     def _frac_pow(self, a, e):
         if not a.num:
+            if eis_num(e) and Fraction(e) > 0:
+                return self.const(0)           # 0**(1/2) = 0
             raise AnalysisError("fractional power of zero")
         if self.atoms_of(a, "defined"):
             a = self.expand_all(a)      # let sqrt see through named sub-expressions
